@@ -215,7 +215,7 @@ def run_case_task(task):
                     break
             n_random = int(opts.get('n_random', 300))
             w, tried = replay.search(c, build, mv, n_random=n_random, seed=int(opts.get('seed', 0)), ignore=ign,
-                                     only=only, post_body=copts.get('post_body'))
+                                     only=only, post_body=copts.get('post_body'), budget_s=float(opts.get('replay_budget_s', 30)))
             out['replay_tried'] = out.get('replay_tried', 0) + tried
             if w is not None:
                 out['violation'] = {'witness': w, 'failing': [(f[0], f[1], f[3], f[4]) for f in failing[:8]]}
